@@ -23,11 +23,11 @@ Definition pc (f r : list Z) (l : list (list Z * list Z)) : list (list Z * list 
 Inductive bobs := BErr | BOk (st : Z) (acc : list bool) (fwd rev : iobs).
 
 (* a block (Start, positions) reversed: the result (Start, words) and the receiver re-read; Equal(receiver, result) and
-   Equal(receiver, receiver rebuilt); result.B1024.GetNAsI16(n); x offered to the RESULT, then the receiver re-read; y offered to
+   Equal(receiver, receiver rebuilt); result.B1024.GetNAsI16(n) and RGetNAsI16(n); x offered to the RESULT, then the receiver re-read; y offered to
    the RECEIVER, then the result re-read; us offered to the result; the result's forward / reverse iteration with count n *)
 Inductive robs :=
 | RPanic
-| ROk (rst : Z) (rbits recv1 : bitmap) (eq_rr eq_self : bool) (ri16 : iobs)
+| ROk (rst : Z) (rbits recv1 : bitmap) (eq_rr eq_self : bool) (ri16 rri16 : iobs)
       (accx : bool) (recv2 : bitmap) (accy : bool) (rbits3 : bitmap) (acc : list bool) (fwd rev : iobs).
 
 Inductive case :=
@@ -66,8 +66,8 @@ Definition bobs_eqb (a b : bobs) : bool :=
 Definition robs_eqb (a b : robs) : bool :=
   match a, b with
   | RPanic, RPanic => true
-  | ROk s rb r1 e1 e2 i ax r2 ay rb3 ac f r, ROk s' rb' r1' e1' e2' i' ax' r2' ay' rb3' ac' f' r' =>
-    (s =? s') && zlist_eqb rb rb' && zlist_eqb r1 r1' && Bool.eqb e1 e1' && Bool.eqb e2 e2' && iobs_eqb i i'
+  | ROk s rb r1 e1 e2 i ri ax r2 ay rb3 ac f r, ROk s' rb' r1' e1' e2' i' ri' ax' r2' ay' rb3' ac' f' r' =>
+    (s =? s') && zlist_eqb rb rb' && zlist_eqb r1 r1' && Bool.eqb e1 e1' && Bool.eqb e2 e2' && iobs_eqb i i' && iobs_eqb ri ri'
     && Bool.eqb ax ax' && zlist_eqb r2 r2' && Bool.eqb ay ay' && zlist_eqb rb3 rb3' && list_eqb Bool.eqb ac ac'
     && iobs_eqb f f' && iobs_eqb r r'
   | _, _ => false
@@ -143,7 +143,7 @@ Definition reverse_run (setf : block -> Z -> option block) (gn : bool -> block -
   let '(ay, b1) := sets setf b0 [y] in
   let '(acc, rf) := sets setf r1 us in
   ROk (start r0) (bits r0) (bits b0) (bequal (bits b0) (bits r0)) (bequal (bits b0) (bits (mk_block st ms)))
-      (getn false idz (bits r0) 0 n)
+      (getn false idz (bits r0) 0 n) (getn true idz (bits r0) 0 n)
       (hd false ax) (bits b0) (hd false ay) (bits r1) acc (gn false rf n) (gn true rf n).
 Definition model_reverse_run (tip : bool) (st : Z) (ms : list Z) (x y : Z) (us : list Z) (n : Z) : robs :=
   if tip then reverse_run tip_set tip_getn st ms x y us n else reverse_run big_set big_getn st ms x y us n.
@@ -228,7 +228,7 @@ Definition members_are (b : bitmap) (p : Z -> bool) : bool := forallb (fun j => 
 Definition rev_holds (same : Z -> Z -> bool) (st : Z) (ms : list Z) (x y : Z) (us : list Z) (n : Z) (o : robs) : bool :=
   match o with
   | RPanic => false
-  | ROk rst rbits recv1 eq_rr eq_self ri16 accx recv2 accy rbits3 acc fwd rev =>
+  | ROk rst rbits recv1 eq_rr eq_self ri16 rri16 accx recv2 accy rbits3 acc fwd rev =>
     (rst =? st)                                                             (* the same block *)
     && members_are rbits (fun j => negb (memz j ms))                        (* the complement within the block *)
     && members_are recv1 (fun j => memz j ms)                               (* the receiver is unchanged *)
@@ -238,12 +238,12 @@ Definition rev_holds (same : Z -> Z -> bool) (st : Z) (ms : list Z) (x y : Z) (u
     && members_are rbits3 (fun j => negb (memz j ms) || (accx && (j =? x mod 1024)))   (* the result does not follow the receiver *)
     && list_eqb Bool.eqb acc (map (same st) us)
     && ((n <? 0) ||
-        match ri16, fwd, rev with
-        | IList i, IList f, IList r =>
+        match ri16, rri16, fwd, rev with
+        | IList i, IList ri, IList f, IList r =>
           let ss := map (fun j => j + 1024 * st) (complement ms) ++ filter (same st) (x :: us) in
-          first_n_of Z.ltb (complement ms) n i
+          first_n_of Z.ltb (complement ms) n i && first_n_of Z.gtb (complement ms) n ri
           && first_n_of Z.ltb ss n f && first_n_of Z.gtb ss n r
-        | _, _, _ => false
+        | _, _, _, _ => false
         end)
   end.
 Definition same_start_i64 (st u : Z) : bool := (0 <=? u) && (u <? MAXI64) && (u / 1024 =? st).
